@@ -249,6 +249,18 @@ async def one_call(C: Ctx, case: dict[str, Any]) -> None:
         "wrap_async": wrap_async, "wrap_async-of-async": wrap_async, "traced": traced, "traced-async": traced,
     }[deco]
     hand: BaseException | None = Hand("handed") if outcome == "raise" else (HandBase("handed-base") if outcome == "raise-base" else None)
+    if outcome == "raise-timeout":
+        # what socket / urllib timeouts raise: the builtin TimeoutError (an OSError: errno, message), with a cause of its own
+        hand = TimeoutError(110, "Connection timed out")
+        hand.__cause__ = OSError("lower level")
+    elif outcome == "raise-futures-cancelled":
+        import concurrent.futures
+
+        hand = concurrent.futures.CancelledError("an inner future of the function was cancelled")  # an Exception - not a cancellation of the caller
+    elif outcome == "raise-futures-invalid":
+        import concurrent.futures
+
+        hand = concurrent.futures.InvalidStateError("invalid")
     cancel_inside = outcome == "cancelled"  # traced-async only: the call is cancelled while suspended inside the function
     nontrivial = bool(kwargs) or is_method or outcome != "value"
     R.case(case, nontrivial=nontrivial)
@@ -616,8 +628,10 @@ def cases(tier: str, rng: random.Random):  # noqa: ANN201
             if fname == "method" and deco in ("wrap_async-of-async", "traced-async", "asynchronous-call"):
                 continue
             nforms = len(METHOD_FORMS if fname == "method" else FORMS[fname])
-            for form_i, outcome, depth in itertools.product(range(nforms), ("value", "raise", "raise-base", "cancelled", "awaitable-future", "awaitable-object"), depths):
+            for form_i, outcome, depth in itertools.product(range(nforms), ("value", "raise", "raise-base", "cancelled", "awaitable-future", "awaitable-object", "raise-timeout", "raise-futures-cancelled", "raise-futures-invalid"), depths):
                 if outcome == "cancelled" and deco != "traced-async":
+                    continue
+                if outcome in ("raise-timeout", "raise-futures-cancelled", "raise-futures-invalid") and (depth > 1 or form_i > 1):
                     continue
                 if outcome.startswith("awaitable") and (depth not in (0, 2) or form_i > 1):
                     continue
